@@ -174,7 +174,7 @@ RandomAccessIterator3 parallel_multiway_merge_base(
     for (RandomAccessIteratorIterator ii = seqs_begin; ii != seqs_end; ++ii)
     {
         if (ii->first != ii->second)
-            ii->first = chunks[num_threads - 1][count_seqs++].second;
+            ii->first = chunks[num_threads - 1][count_seqs++].first;
     }
 
     return target + size;
